@@ -1175,7 +1175,7 @@ func runHistory(c *vf.Ctx, bs *bset, i int, rng *rand.Rand, nops int) {
 }
 
 func run(c *vf.Ctx) {
-	nhist := c.N(800, 24000)
+	nhist := c.N(800, 10000)
 	nops := c.N(40, 80)
 	workers := 8
 	c.Set("histories", nhist)
